@@ -10,8 +10,7 @@ Scheme ptree_mind := Induction for ptree Sort Prop
   with plist_mind := Induction for plist Sort Prop.
 Combined Scheme ptree_mutind from ptree_mind, vlist_mind, plist_mind.
 
-Definition t_rules (t : ptree) : list ident := match t with PNode r _ _ _ => r end.
-Definition t_sign (t : ptree) : list ident := match t with PNode _ s _ _ => s end.
+Definition t_ended (t : ptree) : list chain := match t with PNode e _ _ => e end.
 
 (* ---- matching on the inductive tree --------------------------------------------------------------- *)
 Fixpoint vfind (v : bytes) (l : vlist) : option ptree :=
@@ -39,11 +38,11 @@ Section TPath.
 
   Inductive tpath : ptree -> list bytes -> tctx -> ptree -> tctx -> Prop :=
   | tp_end t c : tpath t [] c t c
-  | tp_value rules sign vs ps v rest c child t' c' :
-      vfind v vs = Some child -> tpath child rest c t' c' -> tpath (PNode rules sign vs ps) (v :: rest) c t' c'
-  | tp_pattern rules sign vs ps v rest c tag cs child c1 t' c' :
+  | tp_value ended vs ps v rest c child t' c' :
+      vfind v vs = Some child -> tpath child rest c t' c' -> tpath (PNode ended vs ps) (v :: rest) c t' c'
+  | tp_pattern ended vs ps v rest c tag cs child c1 t' c' :
       pin tag cs child ps -> tstep tag cs v c c1 -> tpath child rest c1 t' c' ->
-      tpath (PNode rules sign vs ps) (v :: rest) c t' c'.
+      tpath (PNode ended vs ps) (v :: rest) c t' c'.
 End TPath.
 
 (* ---- a pool realises a tree at an index -------------------------------------------------------------- *)
@@ -55,10 +54,10 @@ Section Realizes.
     ((0 <= tag)%Z /\ etag = Z.to_N tag) \/ ((tag < 0)%Z /\ npc < etag).
 
   Inductive realizes : ptree -> nat -> option N -> Prop :=
-  | R_node rules sign vs ps id parent g :
-      nth_error pool id = Some g -> g_parent g = parent -> g_rule g = rules -> g_sign g = sign ->
+  | R_node ended vs ps id parent g :
+      nth_error pool id = Some g -> g_parent g = parent -> g_rule g = map ch_id ended -> g_sign g = flat_map ch_sign ended ->
       realizes_vs vs id (g_vedges g) -> realizes_ps ps id (g_pedges g) ->
-      realizes (PNode rules sign vs ps) id parent
+      realizes (PNode ended vs ps) id parent
   with realizes_vs : vlist -> nat -> list vedge -> Prop :=
   | RV_nil src : realizes_vs VNil src []
   | RV_cons v t r src cid es :
@@ -76,7 +75,7 @@ Lemma realizes_weaken npc pool pool' :
   (forall t id p, realizes npc pool t id p -> realizes npc pool' t id p).
 Proof.
   intros Hsub.
-  fix IH 4. intros t id p H. destruct H as [rules sign vs ps id parent g Hn Hp Hr Hs Hv Hps].
+  fix IH 4. intros t id p H. destruct H as [ended vs ps id parent g Hn Hp Hr Hs Hv Hps].
   econstructor; eauto.
   - clear - IH Hv. induction Hv; constructor; auto.
   - clear - IH Hps. induction Hps; econstructor; eauto.
@@ -84,7 +83,7 @@ Qed.
 
 (* ---- flatten realises its tree ----------------------------------------------------------------------- *)
 Fixpoint tsize (t : ptree) : nat :=
-  match t with PNode _ _ vs ps => S (vsize vs + psize ps) end
+  match t with PNode _ vs ps => S (vsize vs + psize ps) end
 with vsize (l : vlist) : nat :=
   match l with VNil => O | VCons _ t r => (tsize t + vsize r)%nat end
 with psize (l : plist) : nat :=
@@ -108,11 +107,11 @@ Lemma flatten_realizes npc :
 Proof.
   apply ptree_mutind.
   - (* PNode *)
-    intros rules sign vs IHv ps IHp pre post parent tti sub tti' H Hle. cbn [flatten] in H.
+    intros ended vs IHv ps IHp pre post parent tti sub tti' H Hle. cbn [flatten] in H.
     destruct (flatten_vs vs (length pre) (S (length pre)) tti) as [[[ves sub1] nid1] tti1] eqn:Ev.
     destruct (flatten_ps ps (length pre) nid1 tti1) as [[[pes sub2] nid2] tti2] eqn:Ep.
     inversion H; subst sub tti'. clear H.
-    remember {| g_parent := parent; g_rule := rules; g_vedges := ves; g_pedges := pes; g_sign := sign |} as g eqn:Eg.
+    remember {| g_parent := parent; g_rule := map ch_id ended; g_vedges := ves; g_pedges := pes; g_sign := flat_map ch_sign ended |} as g eqn:Eg.
     assert (Hl1 : S (length pre) = length (pre ++ [g])) by (rewrite app_length; cbn; lia).
     rewrite Hl1 in Ev.
     destruct (IHv (pre ++ [g]) (sub2 ++ post) (length pre) tti ves sub1 nid1 tti1 Ev Hle) as (Rv & Lv & Nv & Tv).
@@ -124,7 +123,7 @@ Proof.
     assert (Epool2 : pre ++ (g :: sub1 ++ sub2) ++ post = ((pre ++ [g]) ++ sub1) ++ sub2 ++ post).
     { rewrite <- !app_assoc. cbn. rewrite <- !app_assoc. reflexivity. }
     split; [|split].
-    + apply (R_node npc _ rules sign vs ps (length pre) parent g); try (subst g; reflexivity).
+    + apply (R_node npc _ ended vs ps (length pre) parent g); try (subst g; reflexivity).
       * cbn [app]. apply nth_error_mid.
       * replace (g_vedges g) with ves by (subst g; reflexivity). rewrite Epool. exact Rv.
       * replace (g_pedges g) with pes by (subst g; reflexivity). rewrite Epool2. exact Rp.
@@ -210,7 +209,7 @@ Section PathEquiv.
   Definition ctx_named (c : tctx) : Prop := forall t, npc < t -> tget c t = None.
 
   Fixpoint ttags_ok (t : ptree) : Prop :=
-    match t with PNode _ _ vs ps => vtags_ok vs /\ ptags_ok ps end
+    match t with PNode _ vs ps => vtags_ok vs /\ ptags_ok ps end
   with vtags_ok (l : vlist) : Prop :=
     match l with VNil => True | VCons _ t r => ttags_ok t /\ vtags_ok r end
   with ptags_ok (l : plist) : Prop :=
@@ -307,7 +306,7 @@ Section PathEquiv.
   Proof.
     induction name as [|v rest IH]; intros t id parent c n c' Hrz Htg Hc Hp.
     - inversion Hp; subst. exists t, id, parent. repeat split; auto. constructor.
-    - destruct Hrz as [rules sign vs ps id parent g Hn Hpar Hru Hsi Hvs Hps].
+    - destruct Hrz as [ended vs ps id parent g Hn Hpar Hru Hsi Hvs Hps].
       destruct (mirrors_get _ _ _ _ Hmir Hn) as (nd & Hg & _ & _ & _ & Ev & Ep).
       destruct Htg as [Hvt Hpt].
       inversion Hp as [ | ? nd0 ? ? ? ve d ? ? Hg0 Ht Hd Hrest | ? nd0 ? ? ? pe d c1 ? ? Hg0 Hin Hpass Hd Hrest ]; subst.
@@ -334,10 +333,10 @@ Section PathEquiv.
   Proof.
     induction name as [|v rest IH]; intros t id parent c t' c' Hrz Htg Hc Hp.
     - inversion Hp; subst. exists id, parent. split; [|exact Hrz].
-      destruct Hrz as [rules sign vs ps id parent g Hn _ _ _ _ _].
+      destruct Hrz as [ended vs ps id parent g Hn _ _ _ _ _].
       destruct (mirrors_get _ _ _ _ Hmir Hn) as (nd & Hg & _). eapply path_end; eauto.
-    - inversion Hp as [ | rules sign vs ps ? ? ? child ? ? Hvf Hrest | rules sign vs ps ? ? ? tag cs child c1 ? ? Hpin Hstep Hrest ]; subst.
-      + inversion Hrz as [? ? ? ? ? ? g Hn Hpar Hru Hsi Hvs Hps]; subst.
+    - inversion Hp as [ | ended vs ps ? ? ? child ? ? Hvf Hrest | ended vs ps ? ? ? tag cs child c1 ? ? Hpin Hstep Hrest ]; subst.
+      + inversion Hrz as [? ? ? ? ? g Hn Hpar Hru Hsi Hvs Hps]; subst.
         destruct (mirrors_get _ _ _ _ Hmir Hn) as (nd & Hg & _ & _ & _ & Ev & Ep).
         destruct Htg as [Hvt Hpt].
         pose proof (vfind_realizes v _ _ _ Hvs) as Hf.
@@ -345,7 +344,7 @@ Section PathEquiv.
         destruct Hf as (child' & cid & Hvf' & Hd & Hrc). rewrite Hvf in Hvf'. inversion Hvf'; subst child'.
         destruct (IH child cid _ c t' c' Hrc (vfind_tags _ _ _ Hvt Hvf) Hc Hrest) as (k & p' & Hpath & Hrz').
         exists k, p'. split; [|exact Hrz']. eapply path_value; eauto. unfold vedge_taken. rewrite Ev. exact Efind.
-      + inversion Hrz as [? ? ? ? ? ? g Hn Hpar Hru Hsi Hvs Hps]; subst.
+      + inversion Hrz as [? ? ? ? ? g Hn Hpar Hru Hsi Hvs Hps]; subst.
         destruct (mirrors_get _ _ _ _ Hmir Hn) as (nd & Hg & _ & _ & _ & Ev & Ep).
         destruct Htg as [Hvt Hpt].
         destruct (pin_realizes _ _ _ Hps) as [_ H2].
